@@ -27,13 +27,16 @@ VARIABLES l,        \* next line to consume
           batch,    \* [open, done, staged]
           rec,      \* recovery fold of everything scanned so far
           maxlim,   \* largest DataFileSize used so far in this trace
+          mg,       \* the last successful Merge awaiting adoption: [on, nm (first file id that did not take part), snap]
+          lastact,  \* id of the active file in the last dump
           nops      \* ops since reset (diagnostics)
-vars == <<l, n, st, model, batch, rec, maxlim, nops>>
+vars == <<l, n, st, model, batch, rec, maxlim, mg, lastact, nops>>
 
 E == Trace[l]
 Is(ev) == l <= Len(Trace) /\ Trace[l].ev = ev
 K == 1..n
 NoBatch == [open |-> FALSE, done |-> FALSE, staged |-> <<>>]
+NoMg == [on |-> FALSE, nm |-> 0, snap |-> <<>>]
 Chk(name) == name \in Enforce
 
 \* report which enforced checks failed (trace validation is deterministic, so a
@@ -42,12 +45,12 @@ Fail(what) == Print(<<"CHECK-FAILED", "line", l, what>>, FALSE)
 Must(name, cond) == IF Chk(name) /\ ~cond THEN Fail(name) ELSE TRUE
 
 Init == /\ l = 1 /\ n = 0 /\ st = "closed" /\ model = <<>> /\ batch = NoBatch
-        /\ rec = RecInit({}) /\ maxlim = 0 /\ nops = 0
+        /\ rec = RecInit({}) /\ maxlim = 0 /\ mg = NoMg /\ lastact = 0 /\ nops = 0
 
 TReset == /\ Is("reset")
           /\ l' = l + 1 /\ n' = E.n /\ st' = "closed"
           /\ model' = [k \in 1..E.n |-> Nil] /\ batch' = NoBatch
-          /\ rec' = RecInit(1..E.n) /\ maxlim' = 0 /\ nops' = 0
+          /\ rec' = RecInit(1..E.n) /\ maxlim' = 0 /\ mg' = NoMg /\ lastact' = 0 /\ nops' = 0
 
 (* ---- expected outcome of each call ------------------------------------ *)
 \* <<expected error name, expected result, model', batch'>>
@@ -95,8 +98,12 @@ TOp == /\ Is("op")
              /\ st' = IF e.op = "Open" THEN (IF e.err = "ok" THEN "open" ELSE "closed")
                       ELSE IF e.op = "Close" /\ e.err = "ok" THEN "closed" ELSE st
              /\ maxlim' = IF e.op = "Open" /\ e.cfg.limit > maxlim THEN e.cfg.limit ELSE maxlim
+             \* Merge rotates the active file first: the first file that does not take part is the next id.
+             \* A failed Merge leaves nothing that the checks below may rely on.
+             /\ mg' = IF e.op = "Merge" THEN (IF e.err = "ok" THEN [on |-> TRUE, nm |-> lastact + 1, snap |-> model] ELSE NoMg)
+                      ELSE mg
        /\ l' = l + 1 /\ nops' = nops + 1
-       /\ UNCHANGED <<n, rec>>
+       /\ UNCHANGED <<n, rec, lastact>>
 
 (* ---- observations ------------------------------------------------------ *)
 RECURSIVE AscFrom(_, _)
@@ -136,16 +143,64 @@ TDump ==
                    LET f == e.files[i] IN
                    /\ f.open = 1
                    /\ (f.size <= maxlim \/ f.nrec = 1 \/ (f.nrec = 2 /\ f.nfin = 1)))
-        /\ Must("nomdir", Len(e.mdir) = 0)
+        \* C06: the Open that follows a successful Merge has adopted it: no merge directory is left, and the
+        \* files below the first non-participating id hold exactly one plain put per key that was live at
+        \* the merge, with the value it had then (the sequential driver has no racing writer)
+        /\ Must("nomdir", e.rescan => \A i \in 1..Len(e.mdir) : e.mdir[i] # "000000000.merge-finished")
+        /\ Must("adopted", (e.rescan /\ mg.on) =>
+               LET low == SelectSeq(e.scan, LAMBDA r : r.f < mg.nm) IN
+               /\ Len(e.mdir) = 0
+               /\ Len(low) = Cardinality(Live(mg.snap))
+               /\ \A i \in 1..Len(low) : /\ low[i].t = 0 /\ low[i].bt = 0 /\ low[i].k \in K
+                                          /\ low[i].v = mg.snap[low[i].k]
+               /\ \A i, j \in 1..Len(low) : i # j => low[i].k # low[j].k)
+        /\ mg' = IF e.rescan THEN NoMg ELSE mg
+        /\ lastact' = IF \E i \in 1..Len(e.files) : e.files[i].active = 1
+                       THEN e.files[CHOOSE i \in 1..Len(e.files) : e.files[i].active = 1].id
+                       ELSE lastact
   /\ l' = l + 1
   /\ UNCHANGED <<n, st, model, batch, maxlim, nops>>
+
+\* C20: the backup directory, opened as an independent database while the source is still open,
+\* holds exactly the mapping the source had when Backup was called (no mutation lies between
+\* the Backup call and this observation), and does not carry the source's lock
+TBDump == /\ Is("bdump") /\ st = "open"
+          /\ Must("backup", /\ E.open = "ok" /\ E.geterr = "ok" /\ E.close = "ok" /\ ~E.lockcopied
+                            /\ \A k \in K : E.vals[k] = model[k]
+                            /\ E.keys = LiveSeq /\ E.statkeys = Cardinality(Live(model)))
+          /\ l' = l + 1 /\ UNCHANGED <<n, st, model, batch, rec, maxlim, mg, lastact, nops>>
+
+\* C18: right after a successful Merge the hint file and the rewritten data files, decoded with the
+\* package's own readers: the hinted (key, position, size) triples are exactly those of the rewritten
+\* records, each key once, every record a plain put holding the key's current value
+Triple(x) == <<x.k, x.f, x.b, x.o, x.s>>
+THint == /\ Is("hint") /\ st = "open"
+         /\ LET e == E
+                H == {Triple(e.entries[i]) : i \in 1..Len(e.entries)}
+                R == {Triple(e.recs[i]) : i \in 1..Len(e.recs)}
+            IN Must("hint", /\ e.herr = "ok" /\ e.rerr = "ok"
+                            /\ H = R /\ Cardinality(H) = Len(e.entries) /\ Len(e.recs) = Len(e.entries)
+                            /\ \A i \in 1..Len(e.recs) : /\ e.recs[i].k \in K /\ e.recs[i].t = 0 /\ e.recs[i].bt = 0
+                                                          /\ e.recs[i].v = model[e.recs[i].k]
+                            /\ {e.recs[i].k : i \in 1..Len(e.recs)} = Live(model)
+                            /\ Len(e.recs) = Cardinality(Live(model)))
+         /\ l' = l + 1 /\ UNCHANGED <<n, st, model, batch, rec, maxlim, mg, lastact, nops>>
+
+\* C18: a copy of both directories opened through the hint (the adopting Open) and then once more by a
+\* plain scan of the same files: same values, same positions, same sizes - and both equal to the model
+THintCmp == /\ Is("hintcmp") /\ st = "open"
+            /\ LET e == E IN
+               Must("hintcmp", /\ e.opena = "ok" /\ e.openb = "ok" /\ e.closea = "ok"
+                               /\ e.vala = e.valb /\ e.idxa = e.idxb
+                               /\ \A k \in K : e.vala[k] = model[k])
+            /\ l' = l + 1 /\ UNCHANGED <<n, st, model, batch, rec, maxlim, mg, lastact, nops>>
 
 \* driver-side facts that must simply be true (canaries of C15, digests of C14)
 TNote == /\ Is("note")
          /\ Must(E.check, E.ok)
-         /\ l' = l + 1 /\ UNCHANGED <<n, st, model, batch, rec, maxlim, nops>>
+         /\ l' = l + 1 /\ UNCHANGED <<n, st, model, batch, rec, maxlim, mg, lastact, nops>>
 
-Next == TReset \/ TOp \/ TDump \/ TNote
+Next == TReset \/ TOp \/ TDump \/ TBDump \/ THint \/ THintCmp \/ TNote
 Spec == Init /\ [][Next]_vars
 
 (* ---- acceptance: the whole file was consumed --------------------------- *)
